@@ -67,6 +67,7 @@ def audit_pattern(tree):
     """Semantic checks the readers would make, on the recogniser's tree."""
     problems = []
     labels = []
+    bonds = set()
     for node in walk_tree(tree):
         name = node[0]
         if name == 'Symbols':
@@ -87,14 +88,24 @@ def audit_pattern(tree):
                 if len(lab) == 2 and lab[1][1] not in labels:
                     problems.append('bond to undeclared label %r'
                                     % lab[1][1])
+                if len(lab) == 2:
+                    bonds.add(frozenset((lab[0][1], lab[1][1])))
             if lab:
                 labels.append(lab[0][1])
         elif name == 'RingBond':
-            for c in node[1:]:
-                if isinstance(c, list) and c[0] == 'AtomLabel' \
-                        and c[1] not in labels:
-                    problems.append('ring bond to undeclared label %r'
-                                    % c[1])
+            labs = [c[1] for c in node[1:] if isinstance(c, list)
+                    and c[0] == 'AtomLabel']
+            for lb in labs:
+                if lb not in labels:
+                    problems.append('ring bond to undeclared label %r' % lb)
+            if len(labs) == 2:
+                pair = frozenset(labs)
+                if len(pair) == 1:
+                    problems.append('ring bond from %r to itself' % labs[0])
+                elif pair in bonds:
+                    problems.append('ring bond repeats the bond %s'
+                                    % sorted(pair))
+                bonds.add(pair)
         elif name == 'StereoDoubleBond':
             for c in node[1:]:
                 if isinstance(c, list) and c[0] == 'AtomLabel' \
